@@ -81,7 +81,8 @@ class EnvSpec:
 class FuncContract:
     def __init__(self, qual, params=None, returns=None, requires=(), ensures=(), raises=(), raises_when=(), modifies=(),
                  cls=None, ensures_exc=(), inline=False, loops=None, check_invariant=True, ghost=None, self_fields=None, fresh_self=False,
-                 assume_invariant=True, props=(), result_is=None, setup=None, rely=(), monitor_preserves=(), entry_holds=None, closure_self=None):
+                 assume_invariant=True, props=(), result_is=None, setup=None, rely=(), monitor_preserves=(), entry_holds=None, closure_self=None, free=None):
+        self.free = dict(free or {})                     # free variables of a nested function (closed-over names) -> type descriptors
         self.closure_self = closure_self                 # class of the `self` a nested function closes over (verified like a method of it)
         self.entry_holds = dict(entry_holds or {})       # role -> [lock field names] held when the function is entered
         self.rely = list(rely)                           # [(name, text over params+self)] re-assumed after every monitor havoc (stable under other threads)
@@ -139,6 +140,7 @@ class LoopSpec:
     def __init__(self, invariants=(), variant=None, modifies=(), unroll=None, kind=None, index=None, types=None, establishes=()):
         self.types = dict(types or {})        # local name -> type descriptor used when the loop havocs it
         self.assumed = []                     # [(name, text)] assumed with the invariants, never proved (listed as assumptions)
+        self.entry_only = []                  # [(name, text)] obligations at loop entry that are NOT part of the invariant
         self.establishes = list(establishes)  # element predicate names: proved for the arbitrary element at the end of the body, then
                                               # installed as a fact on the iterated list when the loop finishes by exhaustion
         self.invariants = list(invariants)    # [(name, text)] over locals + self
@@ -284,7 +286,9 @@ def havoc_like(eng, val, base, ty=None, elem_ty=None):
             # value shape taken from an existing entry when the dict had no declared value type
             sample = next((v for _, v in m.entries.values()), None)
             mk = (lambda key, _s=sample: havoc_like(eng, _s, "dictval")) if sample is not None else None
-        eng.state.dicts[val.did] = pyvc.DictModel({}, True, mk, m.tag)
+        nm = pyvc.DictModel({}, True, mk, m.tag)
+        nm.origin = next(eng._fresh)          # a havocked dict has new, unrelated initial content
+        eng.state.dicts[val.did] = nm
         return val
     raise OutOfSubset("havoc of %r" % (val,))
 
@@ -392,6 +396,8 @@ def verify_function(eng, con, label=None, setup=None, extra_checks=None):
         for p in fn.args.args[1 if is_method else 0:] + fn.args.kwonlyargs:
             if p.arg in con.params:
                 env[p.arg] = eng.fresh_of_type(con.params[p.arg], p.arg)
+        for nm, ty in con.free.items():
+            env[nm] = eng.fresh_of_type(ty, nm)
         # defaults for undeclared params
         a = fn.args
         params = [p.arg for p in a.args]
@@ -451,7 +457,11 @@ def verify_function(eng, con, label=None, setup=None, extra_checks=None):
                     eng.assume(eng.truth(eng.eval_spec(text, dict(fr.env), modname, old=old, old_env=dict(env))))
             finally:
                 eng.assuming = False
-            body = fn.body[cut_index(fn, cut, eng, modname):]
+            k0 = cut_index(fn, cut, eng, modname)
+            for st in fn.body[:k0]:
+                if isinstance(st, ast.FunctionDef):
+                    eng.exec(st, fr)         # nested helper functions defined before the cut stay visible
+            body = fn.body[k0:]
         stop_at = None
         if seg < len(con.cuts):
             nxt = con.cuts[seg]
@@ -524,7 +534,10 @@ def verify_function(eng, con, label=None, setup=None, extra_checks=None):
 def cut_index(fn, cut, eng, modname):
     text = eng.repo.text(modname).splitlines()
     for k, st in enumerate(fn.body):
-        if cut.anchor in text[st.lineno - 1]:
+        # the anchor may sit on any line of the statement's header (multi-line conditions), not inside its body
+        first_body = getattr(st, "body", None)
+        last = (first_body[0].lineno - 1) if isinstance(first_body, list) and first_body else getattr(st, "end_lineno", st.lineno)
+        if any(cut.anchor in text[l - 1] for l in range(st.lineno, max(last, st.lineno) + 1)):
             return k
     raise OutOfSubset("cut anchor %r is not a top-level statement of the function" % cut.anchor)
 
